@@ -468,6 +468,7 @@ def setitem(eng, base, idx, val):
 
         return npmodels.setitem(eng, base, idx, val)
     if isinstance(base, PDict):
+        check_frame(eng, base)  # a dict that belongs to a frozen input (its column table, a cache the constructor made) may not be stored into
         if base.items is not None:
             if isinstance(idx, Sym):
                 raise Unsupported("symbolic key store into a concrete dict (add a `types` hint)")
